@@ -106,3 +106,16 @@ Proof. exact tie_serde_probe. Qed.
 Theorem C17_source_tuple_len :
   serde_tuple_lens = [("serialize_tuple", GN); ("deserialize_tuple", GN)]%string.
 Proof. exact tie_serde_tuple_len. Qed.
+
+(* ---- T1: which trait methods are implemented (coq/gen/GenSigs.v gen_impl_methods) ---- *)
+From Coq Require Import String.
+From GA Require Import SigTie.
+From GAGen Require Import GenSigs.
+Local Open Scope string_scope.
+
+(* Serialize defines serialize and Deserialize defines deserialize, nothing else (regenerated): deserialize_in_place is serde's default, which delegates to deserialize *)
+Theorem C17_source_impl_methods :
+  methods_of "Serialize for GenericArray<T,N>" = Some ["serialize"] /\
+  methods_of "Deserialize<'de> for GenericArray<T,N>" = Some ["deserialize"].
+Proof. repeat split. Qed.
+
